@@ -249,7 +249,7 @@ impl<'a> ExprAST<'a> {
             Self::Reference(name) => self.reference_expr(name),
             Self::Function(name, exprs) => self.function_expr(name, exprs.clone()),
             Self::Unary(op, rhs) => self.unary_expr(op, rhs),
-            Self::Binary(op, lhs, rhs) => self.binary_expr(op, lhs, rhs),
+            Self::Binary(op, lhs, rhs) => self.binary_expr(op, op, lhs, rhs),
             Self::Postfix(lhs, op) => self.postfix_expr(lhs, op),
             Self::Ternary(condition, lhs, rhs) => self.ternary_expr(condition, lhs, rhs),
             Self::List(params) => self.list_expr(params.clone()),
@@ -270,7 +270,11 @@ impl<'a> ExprAST<'a> {
                     "false".into()
                 }
             }
-            String(value) => "\"".to_string() + &value + "\"",
+            String(value) => {
+                // a string literal has no escapes: quote it with the quote character it does not contain
+                let quote = if value.contains('"') { "'" } else { "\"" };
+                quote.to_string() + &value + quote
+            }
         }
     }
 
@@ -291,36 +295,70 @@ impl<'a> ExprAST<'a> {
         ans
     }
 
-    fn unary_expr(&self, op: &'a str, rhs: &ExprAST) -> String {
-        op.to_string() + " " + &rhs.expr()
+    // `x OP y` and `x not OP y` are both rendered infix: (OP, x, y, negated)
+    fn infix_like(&self) -> Option<(&'a str, &ExprAST<'a>, &ExprAST<'a>, bool)> {
+        match self {
+            ExprAST::Binary(op, lhs, rhs) => Some((op, lhs, rhs, false)),
+            ExprAST::Unary("not", inner) => match inner.as_ref() {
+                ExprAST::Binary(op, lhs, rhs) => Some((op, lhs, rhs, true)),
+                _ => None,
+            },
+            _ => None,
+        }
     }
 
-    fn binary_expr(&self, op: &'a str, lhs: &ExprAST, rhs: &ExprAST) -> String {
-        let left = {
-            let (is, precidence) = lhs.get_precidence();
-            let mut tmp: String = lhs.expr();
-            if is && precidence < InfixOpManager::new().get_precidence(op) {
-                tmp = "(".to_string() + &lhs.expr() + &")".to_string();
-            }
-            tmp
-        };
-        let right = {
-            let (is, precidence) = rhs.get_precidence();
-            let mut tmp = rhs.expr();
-            if is && precidence < InfixOpManager::new().get_precidence(op) {
-                tmp = "(".to_string() + &rhs.expr() + &")".to_string();
-            }
-            tmp
-        };
-        left + " " + op + " " + &right
+    fn is_ternary(&self) -> bool {
+        matches!(self, ExprAST::Ternary(..))
+    }
+
+    fn paren_expr(&self, need: bool) -> String {
+        if need {
+            return "(".to_string() + &self.expr() + ")";
+        }
+        self.expr()
+    }
+
+    fn unary_expr(&self, op: &'a str, rhs: &ExprAST) -> String {
+        if let Some((inner_op, lhs, rhs, true)) = self.infix_like() {
+            return self.binary_expr(&("not ".to_string() + inner_op), inner_op, lhs, rhs);
+        }
+        // a prefix operator binds tighter than every infix operator and the conditional
+        op.to_string() + " " + &rhs.paren_expr(rhs.is_ternary() || rhs.infix_like().is_some())
+    }
+
+    fn binary_expr(&self, shown_op: &str, op: &str, lhs: &ExprAST, rhs: &ExprAST) -> String {
+        let (l_bp, r_bp) = InfixOpManager::new().get_precidence(op);
+        // an operand needs parentheses when some operator on its spine facing `op` would not bind first
+        let mut left_paren = lhs.is_ternary();
+        let mut node = lhs;
+        while let Some((x, _, next, _)) = node.infix_like() {
+            left_paren = left_paren || l_bp >= InfixOpManager::new().get_precidence(x).1;
+            node = next;
+        }
+        let mut right_paren = rhs.is_ternary();
+        let mut node = rhs;
+        while let Some((y, next, _, _)) = node.infix_like() {
+            right_paren = right_paren || r_bp >= InfixOpManager::new().get_precidence(y).0;
+            node = next;
+        }
+        lhs.paren_expr(left_paren) + " " + shown_op + " " + &rhs.paren_expr(right_paren)
     }
 
     fn postfix_expr(&self, lhs: &ExprAST, op: &str) -> String {
-        lhs.expr() + " " + op
+        // a postfix operator applies to one primary: anything else (and a prefix expression whose
+        // operand is not itself a postfix expression) has to be parenthesised
+        let need = match lhs {
+            ExprAST::Postfix(..) | ExprAST::Ternary(..) => true,
+            ExprAST::Unary(_, operand) => {
+                lhs.infix_like().is_some() || !matches!(operand.as_ref(), ExprAST::Postfix(..))
+            }
+            _ => lhs.infix_like().is_some(),
+        };
+        lhs.paren_expr(need) + " " + op
     }
 
     fn ternary_expr(&self, condition: &ExprAST, lhs: &ExprAST, rhs: &ExprAST) -> String {
-        condition.expr() + " ? " + &lhs.expr() + " : " + &rhs.expr()
+        condition.paren_expr(condition.is_ternary()) + " ? " + &lhs.expr() + " : " + &rhs.expr()
     }
 
     fn list_expr(&self, params: Vec<ExprAST>) -> String {
